@@ -531,7 +531,12 @@ def exportNode (ctx : Ctx) (g : Graph) (n : Nat) (name : Str) : R :=
       match g.node? n with
       | none => (g, .panic .invalidNodeId)
       | some nd =>
-        let g1 := g.setNode n { nd with exp := some name }
+        -- a type definition keeps the name it was defined with; a further name is only an
+        -- additional entry of the export map
+        let nd' : Node := match nd.kind with
+          | .definition _ => nd
+          | _ => { nd with exp := some name }
+        let g1 := g.setNode n nd'
         ({ g1 with exports := alInsert g1.exports name n }, .ok .unit)
 
 /-- drop the export-map entries of node `n` after its own export name went
